@@ -180,6 +180,34 @@ def reshape_move(src, rc, dst, how_src='cur', how_dst='cur',
     return b
 
 
+def reshape_drop(p, how='cur', consumers_how='cur', keep=None):
+    """reshape provider p to an empty inventory (or to `keep`), removing
+    every consumer's allocations on it."""
+    def b(d):
+        allocs = {}
+        tag = {'cgen': {}, 'pgens': [(p, g_of(d, p, how))]}
+        for c in sorted({c for (c, u, k) in d.allocs if u == p}):
+            new = {}
+            for (cc, u, k), used in d.allocs.items():
+                if cc == c and u != p:
+                    new.setdefault(u, {'resources': {}})['resources'][k] = \
+                        used
+            cons = d.consumers[c]
+            allocs[c] = {'allocations': new, 'project_id': cons['project'],
+                         'user_id': cons['user'],
+                         'consumer_generation': cgen_of(d, c, consumers_how),
+                         'consumer_type': cons['type'] or 'INSTANCE'}
+            tag['cgen'][c] = allocs[c]['consumer_generation']
+        r = Req('POST', '/reshaper', '1.39', {
+            'inventories': {p: {'resource_provider_generation':
+                                g_of(d, p, how),
+                                'inventories': keep or {}}},
+            'allocations': allocs}, roles='service')
+        r['tag'] = tag
+        return r
+    return b
+
+
 # ---------------------------------------------------------------------------
 # scenario catalogues
 # ---------------------------------------------------------------------------
@@ -233,6 +261,42 @@ def scenarios_c05():
     for d1, d2 in itertools.combinations(sorted(derived), 2):
         out.append(('%s|%s' % (d1, d2), {'A': derived[d1],
                                          'B': derived[d2]}))
+    # shapes at the edges: empty sets, reshapes that only remove
+    for rname, rb in (('reshape_drop_C', reshape_drop(C)),
+                      ('reshape_drop_S', reshape_drop(S)),
+                      ('reshape_drop_R_keep_mem', reshape_drop(
+                          R, keep={'DISK_GB': {'total': 5}}))):
+        p = {'reshape_drop_C': C, 'reshape_drop_S': S,
+             'reshape_drop_R_keep_mem': R}[rname]
+        rc = {C: 'CUSTOM_A', S: 'DISK_GB', R: 'VCPU'}[p]
+        for oname, ob in (
+                ('inv', put_inv(p, rc, 'cur', {'total': 64})),
+                ('invs_empty', put_invs(p, 'cur', {})),
+                ('traits_empty', put_traits(p, 'cur', [])),
+                ('traits', put_traits(p, 'cur', ['CUSTOM_UNUSED'])),
+                ('aggs_empty', put_aggs(p, 'cur', [])),
+                ('claim', put_alloc(K3, {p: {rc: 1}}, 'null'))):
+            out.append(('%s|%s' % (rname, oname), {'A': rb, 'B': ob}))
+    # a consumer living on E only: a reshape that retires E wipes it
+    def solo(client):
+        r = client.call('PUT', '/allocations/%s' % K4, {
+            'allocations': {E: {'resources': {'VCPU': 2}}},
+            'project_id': 'pS', 'user_id': 'uS',
+            'consumer_generation': None, 'consumer_type': 'INSTANCE'})
+        assert r.status == 204, r.status
+    for oname, ob in (
+            ('invs', put_invs(E, 'cur', {'VCPU': {'total': 16}})),
+            ('inv', put_inv(E, 'VCPU', 'cur', {'total': 16})),
+            ('traits', put_traits(E, 'cur', ['CUSTOM_T1'])),
+            ('aggs', put_aggs(E, 'cur', [A1])),
+            ('claim', put_alloc(K3, {E: {'VCPU': 1}}, 'null')),
+            ('post_inv', post_inv(E, 'DISK_GB', 7))):
+        out.append(('retire E (solo consumer)|%s' % oname,
+                    {'A': reshape_drop(E), 'B': ob}, solo))
+    out.append(('invs_empty|traits_empty (E)', {
+        'A': put_invs(E, 'cur', {}), 'B': put_traits(E, 'cur', [])}))
+    out.append(('invs_empty|aggs (E)', {
+        'A': put_invs(E, 'cur', {}), 'B': put_aggs(E, 'cur', [A1])}))
     # triples carrying the same generation
     out.append(('invs1|traits1|aggs1 (same gen)',
                 {'A': writers['invs1']('cur'), 'B': writers['traits1']('cur'),
@@ -478,12 +542,21 @@ def judge(pid, scen_name, reqs, d0, result, serial, res, use_serial=True):
             200 <= statuses[n] < 300]
     # --- (1) serial equivalence ---------------------------------------------
     fin_core = final.core(with_gen=False)
+    fin_full = final.core(with_gen=True)
     matched = None
     gen_equal = False
+    # prefer a serial order that agrees on the generation numbers as well
+    for perm in (itertools.permutations(succ) if use_serial else ()):
+        sts, dump = serial.run(perm)
+        if all(200 <= s < 300 for s in sts) and \
+                dump.core(with_gen=True) == fin_full:
+            matched, gen_equal = perm, True
+            break
     if not use_serial:
         _final_writer_clause(pid, scen_name, reqs, d0, result, succ, final,
                              res, wit)
-    for perm in (itertools.permutations(succ) if use_serial else ()):
+    for perm in (itertools.permutations(succ)
+                 if use_serial and matched is None else ()):
         sts, dump = serial.run(perm)
         if not all(200 <= s < 300 for s in sts):
             continue
@@ -509,9 +582,19 @@ def judge(pid, scen_name, reqs, d0, result, serial, res, use_serial=True):
             'serial execution' % (scen_name, order, outcome, succ),
             dict(wit, serial=detail[:6]))
     elif use_serial and not gen_equal:
-        res.count('serial_match_but_generation_numbers_differ')
+        # "the resulting providers ... and consumers equal that serial
+        # execution's": the records agree except for generation numbers
+        sts, dump = serial.run(matched)
+        res.violation(
+            '%s|generation-numbers-differ-from-every-serial-order|%s' % (
+                pid, scen_name),
+            '%s [%s] outcome %s: tables equal the serial order %s except '
+            'for generations: %s' % (
+                scen_name, order, outcome, ''.join(matched),
+                dbdump.diff(dump, final, with_gen=True)[:4]), wit)
     # --- (2) guarded writes ----------------------------------------------------
     seq = [(None, None, d0)] + list(result['states'])
+    changed_p, changed_c = set(), set()
     for n in succ:
         tag = reqs[n]['tag'] or {}
         pg = list(tag.get('pgens', []))
@@ -524,6 +607,7 @@ def judge(pid, scen_name, reqs, d0, result, serial, res, use_serial=True):
                     continue
                 before, after = seq[i - 1][2], seq[i][2]
                 if rp_facet(before, p) != rp_facet(after, p):
+                    changed_p.add((n, p))
                     bg = before.providers[p]['generation'] \
                         if p in before.providers else None
                     if bg != g:
@@ -541,6 +625,7 @@ def judge(pid, scen_name, reqs, d0, result, serial, res, use_serial=True):
                     continue
                 before, after = seq[i - 1][2], seq[i][2]
                 if consumer_facet(before, c) != consumer_facet(after, c):
+                    changed_c.add((n, c))
                     bcur = before.consumers.get(c)
                     bg = bcur['generation'] if bcur else None
                     if bg != cg:
@@ -562,10 +647,14 @@ def judge(pid, scen_name, reqs, d0, result, serial, res, use_serial=True):
         pg = list(tag.get('pgens', []))
         if 'pgen' in tag:
             pg.append(tag['pgen'])
+        # (a success that changed nothing of the entity - e.g. PUT of the
+        # traits it already has - is vacuously "applied")
         for key in pg:
-            seen_p.setdefault(key, []).append(n)
+            if (n, key[0]) in changed_p:
+                seen_p.setdefault(key, []).append(n)
         for c, cg in (tag.get('cgen') or {}).items():
-            seen_c.setdefault((c, cg), []).append(n)
+            if (n, c) in changed_c:
+                seen_c.setdefault((c, cg), []).append(n)
     for key, ns in seen_p.items():
         if len(ns) > 1:
             res.violation(
@@ -625,8 +714,15 @@ def run_scenarios(pid, scenarios, spec, res, use_serial=True):
         world.build(svc.client)
         snap = svc.app.snapshot(svc.app.db_path + '.world')
         d0 = svc.dump()
+        base_snap, base_d0 = snap, d0
         for idx in range(spec['first'], spec['first'] + spec['count']):
-            name, builders = scenarios[idx]
+            name, builders = scenarios[idx][:2]
+            snap, d0 = base_snap, base_d0
+            if len(scenarios[idx]) > 2:
+                svc.app.restore(base_snap)
+                scenarios[idx][2](svc.client)
+                snap = svc.app.snapshot(svc.app.db_path + '.scen')
+                d0 = svc.dump()
             reqs = {n: b(d0) for n, b in builders.items()}
             serial = SerialCache(svc, snap, reqs)
             rng = random.Random('%s/%s/%s' % (pid, spec['seed'], name))
@@ -662,5 +758,131 @@ def run_scenarios(pid, scenarios, spec, res, use_serial=True):
             res.sample({'scenario': name, 'schedules': n_sched,
                         'outcome_vectors': sorted(outcomes),
                         'example_order': result['order']}, cap=4)
+    finally:
+        svc.close()
+
+
+# ---------------------------------------------------------------------------
+# state invariants of the sequential properties, evaluated on the
+# committed-state sequences of concurrent runs (C01 C08 C09 C10 C12)
+# ---------------------------------------------------------------------------
+def move_rp(p, parent, version='1.39'):
+    def b(d):
+        return Req('PUT', '/resource_providers/%s' % p, version,
+                   {'name': d.providers[p]['name'],
+                    'parent_provider_uuid': parent})
+    return b
+
+
+def post_rp(u, name, parent):
+    return lambda d: Req('POST', '/resource_providers', '1.39',
+                         {'name': name, 'uuid': u,
+                          'parent_provider_uuid': parent})
+
+
+def scenarios_tree():
+    N2 = '55555555-5555-4555-8555-555555555552'
+    return [
+        ('cross re-parent E<->S', {'A': move_rp(E, S), 'B': move_rp(S, E)}),
+        ('re-parent C under E | E under C', {'A': move_rp(C, E),
+                                             'B': move_rp(E, C)}),
+        ('re-parent C to E | delete E', {'A': move_rp(C, E),
+                                         'B': delete_rp(E)}),
+        ('create child of E | delete E', {'A': post_rp(world.N, 'kid', E),
+                                          'B': delete_rp(E)}),
+        ('create child of E | move E under C', {
+            'A': post_rp(world.N, 'kid', E), 'B': move_rp(E, C)}),
+        ('un-parent C | re-parent R under C', {'A': move_rp(C, None),
+                                               'B': move_rp(R, C)}),
+        ('first parent 1.14 | re-parent 1.37', {
+            'A': move_rp(E, R, '1.14'), 'B': move_rp(R, S)}),
+        ('three movers', {'A': move_rp(E, C), 'B': move_rp(C, S),
+                          'C': move_rp(S, E)}),
+        ('two children, parent moves', {
+            'A': post_rp(world.N, 'kid', C), 'B': post_rp(N2, 'kid2', C),
+            'C': move_rp(C, E)}),
+    ]
+
+
+def invariant_scenarios(include_tree=False, sample_c05=40, seed=0):
+    import random
+    rng = random.Random('inv/%s' % seed)
+    c05 = scenarios_c05()
+    out = scenarios_c07() + scenarios_c06() + rng.sample(
+        c05, min(sample_c05, len(c05)))
+    if include_tree:
+        out = scenarios_tree() + out
+    return out
+
+
+def run_invariants(pid, scenarios, spec, res, per_state=None, per_step=None,
+                   at_end=None, max_schedules=30):
+    """Run scenarios under the scheduler; call
+       per_state(dump, wit) for every committed state,
+       per_step(step, res) with a monitors.Step for the last committing step
+       of every request (before/after = the states around that step),
+       at_end(d0, final, reqs, results, wit) once per schedule."""
+    import random
+    from pv import sched, monitors
+    from pv.histrun import Service
+    svc = Service()
+    sc = sched.Scheduler(svc.app)
+    thorough = spec.get('tier') == 'thorough'
+    try:
+        svc.fresh()
+        world.build(svc.client)
+        base_snap = svc.app.snapshot(svc.app.db_path + '.world')
+        base_d0 = svc.dump()
+        for idx in range(spec['first'], spec['first'] + spec['count']):
+            name, builders = scenarios[idx][:2]
+            snap, d0 = base_snap, base_d0
+            if len(scenarios[idx]) > 2:
+                svc.app.restore(base_snap)
+                scenarios[idx][2](svc.client)
+                snap = svc.app.snapshot(svc.app.db_path + '.scen')
+                d0 = svc.dump()
+            reqs = {n: b(d0) for n, b in builders.items()}
+            rng = random.Random('%s/%s/%s' % (pid, spec['seed'], name))
+
+            def run(prefix):
+                svc.app.restore(snap)
+                fns = {n: (lambda r=r: svc.client.send(r, record=False))
+                       for n, r in reqs.items()}
+                return sc.run(fns, prefix)
+            for prefix, result, fresh in sched.explore(
+                    run, max_preemptions=2,
+                    max_schedules=max_schedules * (8 if thorough else 1),
+                    rng=rng, random_extra=10 if thorough else 2):
+                res.count('concurrent_schedules')
+                results = result['results']
+                order = result['order']
+                wit = {'scenario': name, 'transaction_order': order,
+                       'requests': {n: reqs[n].brief() for n in reqs},
+                       'responses': {n: results[n].brief()
+                                     if results[n] is not None else None
+                                     for n in reqs}}
+                seq = [(None, None, d0)] + list(result['states'])
+                if per_state is not None:
+                    for i in range(1, len(seq)):
+                        res.count('concurrent_states_checked')
+                        per_state(seq[i][2], dict(wit, after_step=i,
+                                                  by=seq[i][1]))
+                if per_step is not None:
+                    last = {}
+                    for i in range(1, len(seq)):
+                        last[seq[i][1]] = i
+                    for n, i in last.items():
+                        if results[n] is None:
+                            continue
+                        st = monitors.Step(reqs[n], results[n],
+                                           seq[i - 1][2], seq[i][2],
+                                           hist=lambda w=wit: w)
+                        res.count('concurrent_steps_judged')
+                        per_step(st, res)
+                if at_end is not None:
+                    final = seq[-1][2]
+                    at_end(d0, final, reqs, results, wit)
+                res.seen('conc', name, order[:24])
+            res.count('concurrent_scenarios')
     finally:
         svc.close()
